@@ -41,6 +41,7 @@ pub struct Profile {
     /// (a scenario may then also hold the same step twice: `repeat_steps`).
     pub positionless_pm: u64,
     pub repeat_steps: bool,
+    pub many_features_pm: u64,
 }
 
 impl Profile {
@@ -66,6 +67,7 @@ impl Profile {
             dup_names_pm: 60,
             positionless_pm: 60,
             repeat_steps: true,
+            many_features_pm: 15,
         }
     }
 
@@ -118,11 +120,13 @@ impl Profile {
                 p.faults_pm = 1000;
             }
             "C11" | "C12" | "C13" => {
+                p.many_features_pm = 80;
                 p.dup_names_pm = 120;
                 p.positionless_pm = 120;
                 p.repeat_steps = true;
             }
             "C14" => {
+                p.many_features_pm = 50;
                 p.dup_names_pm = 120;
                 p.positionless_pm = 120;
                 p.repeat_steps = true;
@@ -230,8 +234,13 @@ pub fn gen_plan(seed: u64, prof: &Profile) -> Plan {
     let wide = on(&mut r, prof.wide_pm);
     let max_retries = if prof.thorough { 5 } else { 3 };
 
+    // a long run of small features (a backlog for anything that buffers per feature)
+    let many_features = !wide && r.chance(prof.many_features_pm, 1000);
     let (n_feat, max_sc, max_steps, max_bg) = if wide {
         (r.usize(1, 3), r.usize(70, 100), 1, 0)
+    } else if many_features {
+        let n = r.usize(18, 45);
+        (n, n + r.usize(0, 10), 1, 0)
     } else if prof.thorough {
         (r.usize(1, 8), r.usize(1, 40), r.usize(0, 4), r.usize(0, 2))
     } else {
@@ -253,9 +262,9 @@ pub fn gen_plan(seed: u64, prof: &Profile) -> Plan {
         let fid = ident("F", fi);
         let remaining_feats = n_feat - fi;
         let share = (budget / remaining_feats).max(if fi == 0 { 1 } else { 0 });
-        let n_sc_total = if wide { share } else { c.r.usize(if fi == 0 { 1 } else { 0 }, share.max(1)).min(budget) };
+        let n_sc_total = if wide { share } else { c.r.usize(if fi == 0 || many_features { 1 } else { 0 }, share.max(1)).min(budget.max(usize::from(many_features))) };
         budget -= n_sc_total.min(budget);
-        let n_rules = if wide { 0 } else { c.r.usize(0, 2) };
+        let n_rules = if wide || many_features { 0 } else { c.r.usize(0, 2) };
         let mut per: Vec<usize> = vec![0; n_rules + 1];
         for _ in 0..n_sc_total {
             let k = c.r.usize(0, n_rules);
@@ -558,6 +567,7 @@ pub fn gen_plan(seed: u64, prof: &Profile) -> Plan {
         busy_k: r.range(1, 4) as u32,
         oversleep_ns: if noise && r.chance(1, 2) { r.log_dur(1_000_000_000) } else { 0 },
         consumer_pm: if noise { *r.pick(&[0, 0, 30, 200]) } else { 0 },
+        fresh_wakers: noise && r.chance(1, 4),
     };
 
     Plan {
